@@ -506,6 +506,11 @@ fn process_tags(
     // variables in force, and the element `^` stands for, where each deferred tag stands
     // in the document
     let mut environments: HashMap<OrderIndex, (Vec<Scope>, Option<SvgElement>)> = HashMap::new();
+    // `^` of a tag whose predecessor was itself deferred: that predecessor (by index),
+    // and what each deferred element turned out to be once it was resolved
+    let mut deferred_predecessor: HashMap<OrderIndex, OrderIndex> = HashMap::new();
+    let mut resolved_later: HashMap<OrderIndex, Option<SvgElement>> = HashMap::new();
+    let mut last_failed: Option<OrderIndex> = None;
 
     // What was known (tags completed here, ids registered / positioned anywhere) when
     // each deferred tag last failed: retrying it before that has changed cannot end
@@ -543,14 +548,24 @@ fn process_tags(
             // a deferred tag is re-evaluated in the environment of its own position,
             // not in what its later siblings have made of it since
             let prev_here = context.prev_element_here();
+            let is_retry = environments.contains_key(&idx);
             let later_env = environments.get(&idx).map(|(env, prev)| {
+                // the element written before this one, in its resolved form if it was
+                // deferred as well (not yet resolved: `^` cannot be resolved either)
+                let prev = match deferred_predecessor.get(&idx) {
+                    Some(pred) => resolved_later.get(pred).cloned().flatten(),
+                    None => prev.clone(),
+                };
                 (
                     context.swap_environment(env.clone()),
-                    context.swap_prev_element(prev.clone()),
+                    context.swap_prev_element(prev),
                 )
             });
             let gen_result = t.generate_events(context);
             if let Some((env, prev)) = later_env {
+                if gen_result.is_ok() {
+                    resolved_later.insert(idx.clone(), context.prev_element_here());
+                }
                 context.swap_environment(env);
                 context.swap_prev_element(prev);
             }
@@ -594,7 +609,21 @@ fn process_tags(
                         idx_output.insert(idx, events);
                     }
                     completed += 1;
+                    if el.is_some() && !is_retry {
+                        last_failed = None;
+                    }
                 } else {
+                    if el.is_some() && !is_retry {
+                        // what follows must not take `^` for an element further back
+                        if let Some(pred) = last_failed.replace(idx.clone()) {
+                            deferred_predecessor.entry(idx.clone()).or_insert(pred);
+                        }
+                        context.swap_prev_element(None);
+                    } else if !is_retry {
+                        if let Some(pred) = &last_failed {
+                            deferred_predecessor.entry(idx.clone()).or_insert(pred.clone());
+                        }
+                    }
                     if let (Some(el), Err(err)) = (el, gen_result) {
                         if let SvgdxError::MultiError(err_list) = err {
                             for (idx, (el, err)) in err_list {
